@@ -17,24 +17,25 @@ import (
 	"github.com/apernet/hysteria/core/v2/client"
 	coreErrs "github.com/apernet/hysteria/core/v2/errors"
 	"verif.local/engine/explore"
+	"verif.local/engine/vnet"
 	"verif.local/engine/vquic"
 	"verif.local/engine/vsched"
 	"verif.local/engine/vsync"
 )
 
 type c06Cfg struct {
-	Name      string
-	AppSend   []string // chunks the application writes
-	TgtSend   []string // chunks the target writes
-	AppClose  string   // "after-writes" | "after-reading-all" | "never"
-	TgtClose  string   // "after-writes" | "after-reading-all" | "never"
-	FastOpen  bool
-	Logger    bool
-	VetoAt    int    // veto the k-th LogTraffic call (0 = never)
-	DialErr   string // non-empty: Outbound.TCP fails with this message
-	Whole     string // "" | "c2t" | "t2c" | "both": directions in which complete delivery is required
-	Window    int    // stream window (0 = default)
-	Chunks    bool   // short reads as environment choices
+	Name     string
+	AppSend  []string // chunks the application writes
+	TgtSend  []string // chunks the target writes
+	AppClose string   // "after-writes" | "after-reading-all" | "never"
+	TgtClose string   // "after-writes" | "after-reading-all" | "never"
+	FastOpen bool
+	Logger   bool
+	VetoAt   int    // veto the k-th LogTraffic call (0 = never)
+	DialErr  string // non-empty: Outbound.TCP fails with this message
+	Whole    string // "" | "c2t" | "t2c" | "both": directions in which complete delivery is required
+	Window   int    // stream window (0 = default)
+	Chunks   bool   // short reads as environment choices
 	// ReadLate: the application's first Read happens only after target bytes were relayed onto
 	// the stream (a target that speaks first, an application that is slow to read)
 	ReadLate bool
@@ -50,6 +51,12 @@ type c06Cfg struct {
 	// TCPLike: the outbound connection has net.TCPConn's ReadFrom/WriteTo (which generic copy
 	// helpers delegate to, and which wrap errors in *net.OpError), as the direct outbound's has
 	TCPLike bool
+	// TgtEOFWithData: the outbound connection's Read hands over the target's last bytes TOGETHER
+	// with io.EOF - (n > 0, io.EOF), which the io.Reader contract allows and TLS / buffered / custom
+	// Outbound connections do, though a plain *net.TCPConn never does. (Added after the
+	// independently seeded change C06-7: a QStream.ReadFrom picked up by the no-logger fast path's
+	// io.Copy tested the Read error before the byte count and dropped that final chunk.)
+	TgtEOFWithData bool
 }
 
 // c06DecliningHook declines every request; its TCP/UDP methods must never be called.
@@ -63,6 +70,36 @@ func (h c06DecliningHook) TCP(stream HyStream, reqAddr *string) ([]byte, error) 
 func (h c06DecliningHook) UDP(data []byte, reqAddr *string) error {
 	h.e.Fail("RequestHook.UDP called for a request its Check declined")
 	return nil
+}
+
+// c06EOFOutbound hands the server outbound connections that return their last bytes together
+// with io.EOF (c06Cfg.TgtEOFWithData).
+type c06EOFOutbound struct {
+	Outbound
+	r *rig
+}
+
+func (o c06EOFOutbound) TCP(reqAddr string) (net.Conn, error) {
+	c, err := o.Outbound.TCP(reqAddr)
+	if err != nil {
+		return c, err
+	}
+	return c06EOFConn{Conn: c, srv: o.r.RelayEnds[reqAddr], tgt: o.r.Targets[reqAddr]}, nil
+}
+
+// c06EOFConn: a Read that takes the last bytes the target wrote before closing returns them with
+// io.EOF instead of (n, nil) now and (0, io.EOF) on the next call. Nothing else differs.
+type c06EOFConn struct {
+	net.Conn
+	srv, tgt *vnet.Conn // the two ends of the target pipe
+}
+
+func (c c06EOFConn) Read(b []byte) (int, error) {
+	n, err := c.Conn.Read(b)
+	if err == nil && n > 0 && c.tgt.IsClosed() && len(c.srv.Received) == len(c.tgt.Written) {
+		return n, io.EOF
+	}
+	return n, err
 }
 
 const c06Addr = "target.example:80"
@@ -85,7 +122,21 @@ func c06Run(e *vsched.Exec, c c06Cfg) {
 	if c.DecliningHook {
 		opts.Mutate = func(cfg *Config) { cfg.RequestHook = c06DecliningHook{e} }
 	}
+	var eofOut *c06EOFOutbound
+	if c.TgtEOFWithData {
+		prev := opts.Mutate
+		opts.Mutate = func(cfg *Config) {
+			if prev != nil {
+				prev(cfg)
+			}
+			eofOut = &c06EOFOutbound{Outbound: cfg.Outbound}
+			cfg.Outbound = eofOut
+		}
+	}
 	r := newRig(e, opts)
+	if eofOut != nil {
+		eofOut.r = r
+	}
 	if r.srv == nil {
 		return
 	}
@@ -371,6 +422,22 @@ func (f *c06Factory) New(net.Addr) (net.PacketConn, error) {
 
 func c06Scenarios(thorough bool) []*explore.Scenario {
 	var cfgs []c06Cfg
+	// the target's last bytes arrive TOGETHER with io.EOF at the server's outbound connection
+	// (environment answer (n > 0, io.EOF) of the target's Read), logger absent (fast path) and
+	// present, fast-open off and on; every schedule decides how much of the target's stream that
+	// final Read carries. Added after the independently seeded change C06-7 (an io.ReaderFrom on
+	// QStream, used implicitly by the fast path's io.Copy, dropped bytes returned together with
+	// io.EOF). These come first: they are cheap and must not fall behind the deadline on a loaded
+	// machine.
+	for _, lg := range []bool{false, true} {
+		for _, fo := range []bool{false, true} {
+			sfx := fmt.Sprintf("/fastopen=%v/logger=%v/target-eof-with-data", fo, lg)
+			cfgs = append(cfgs, c06Cfg{Name: "t2c" + sfx, TgtSend: []string{"x", "yz0"}, TgtClose: "after-writes", AppClose: "never", FastOpen: fo, Logger: lg, Whole: "t2c", TgtEOFWithData: true})
+			if !fo {
+				cfgs = append(cfgs, c06Cfg{Name: "race-close" + sfx, AppSend: []string{"a", "bcd"}, TgtSend: []string{"x", "yz0"}, AppClose: "after-writes", TgtClose: "after-writes", Logger: lg, TgtEOFWithData: true})
+			}
+		}
+	}
 	for _, fo := range []bool{false, true} {
 		for _, lg := range []bool{false, true} {
 			sfx := fmt.Sprintf("/fastopen=%v/logger=%v", fo, lg)
@@ -448,7 +515,7 @@ func c06Scenarios(thorough bool) []*explore.Scenario {
 		// sized with explore.Probe: ~270 alternatives per default schedule (window scenarios ~1200)
 		q := explore.Bounds{P: 1, E: 1}
 		t := explore.Bounds{P: 2, E: 1}
-		core := !c.FastOpen && c.Logger && (strings.HasPrefix(c.Name, "c2t/") || strings.HasPrefix(c.Name, "t2c/") || strings.HasPrefix(c.Name, "race-close/") || strings.HasPrefix(c.Name, "veto2/"))
+		core := !c.FastOpen && c.Logger && !c.TgtEOFWithData && (strings.HasPrefix(c.Name, "c2t/") || strings.HasPrefix(c.Name, "t2c/") || strings.HasPrefix(c.Name, "race-close/") || strings.HasPrefix(c.Name, "veto2/"))
 		if core {
 			q = explore.Bounds{P: 2, E: 1}
 			t = explore.Bounds{P: 3, E: 1, MaxExec: 3000000}
